@@ -91,6 +91,9 @@ func postCopy(hist []HistEntry) string {
 	if copyE == nil || classWord(copyE.Impl) != "ok" {
 		return ""
 	}
+	if (opIs(last.Op.Line, "diff") || opIs(last.Op.Line, "copy")) && copyE.Now != last.Now {
+		return "" // the clock ticked since the copy: the windows differ
+	}
 	switch {
 	case opIs(last.Op.Line, "diff") && opKV(last.Op.Line, "pairs") == opKV(copyE.Op.Line, "pairs") &&
 		window3(last.Op.Line) == window3(copyE.Op.Line) && opKV(last.Op.Line, "swap") == "":
@@ -141,8 +144,9 @@ func postSumCopy(hist []HistEntry) string {
 	}
 	for i := len(hist) - 2; i >= 0; i-- {
 		if opIs(hist[i].Op.Line, "sumcopy") {
+			// a clock tick between the two commands moves the window: not comparable
 			if classWord(hist[i].Impl) == "ok" && opKV(hist[i].Op.Line, "items") == opKV(last.Op.Line, "items") &&
-				window3(hist[i].Op.Line) == window3(last.Op.Line) {
+				window3(hist[i].Op.Line) == window3(last.Op.Line) && hist[i].Now == last.Now {
 				if classWord(last.Impl) != "ok" {
 					return "sum-diff is not clean right after a successful sum-copy over the same window: " + classWord(last.Impl)
 				}
@@ -161,7 +165,8 @@ func postDiff(hist []HistEntry) string {
 	}
 	if opIs(last.Op.Line, "diff") && opKV(last.Op.Line, "swap") == "1" && len(hist) >= 2 {
 		prev := hist[len(hist)-2]
-		if opIs(prev.Op.Line, "diff") && window3(prev.Op.Line) == window3(last.Op.Line) {
+		// the two directions are comparable only when they ran within the same second
+		if opIs(prev.Op.Line, "diff") && window3(prev.Op.Line) == window3(last.Op.Line) && prev.Now == last.Now {
 			a, b := classWord(prev.Impl), classWord(last.Impl)
 			if (a == "ok" || a == "difffound") && (b == "ok" || b == "difffound") && a != b {
 				return "diff verdict is not symmetric: " + a + " vs " + b
